@@ -145,10 +145,14 @@ CLAIMS = {
          "that reaches the same funnel. exit_trap_runs_exactly_once_and_last (output = main's output followed by exactly one handler run started "
          "with `$?` = terminating status), trap_preserves_status, handler_not_reentered, exec_replaces_shell_without_trap, front_end_irrelevant; the "
          "clause 'unless the handler itself calls exit' is refuted for brush (exit_status_full_cex) and proved under the guard (exit_status_partial). "
-         "Tie: 7 ways out x 12 nesting contexts x 7 handler bodies x {-c, file, stdin}, trap set/replaced/removed + random programs: brush vs bash vs "
-         "model, and the exactly-once predicate on brush's own trace; ERR-trap programs brush vs bash.",
+         "A subshell / command substitution / pipeline stage that registers its OWN EXIT trap: stated at full strength (subshell_own_exit_trap_full), "
+         "refuted for brush (…_cex: the clone is dropped without on_exit), proved for subshells that register none (…_partial) and "
+         "subshell_own_trap_only_handler_missing (what brush loses is exactly the handler's run). "
+         "Tie: 7 ways out x 15 nesting contexts x 7 handler bodies x {-c, file, stdin}, trap set/replaced/removed + random programs: brush vs bash vs "
+         "model, and the exactly-once predicate on brush's own trace; own-trap family (7 ways x 7 nestings x 7 handlers x {( ), $( ), pipeline stage}) "
+         "brush vs bash vs model of brush vs reference; ERR-trap programs brush vs bash.",
          "Trusted: Lean kernel + standard axioms; bash as oracle. Where the ERR trap fires inside a program is not in the model (compared with bash "
-         "directly); traps set inside the program are resolved statically to the handler in force at exit. Two fixes tried for the recorded findings "
+         "directly); traps set inside the program are resolved statically to the handler in force at exit. Fixes for the three recorded findings "
          "are blocked by known_failure pins in the repository's stable test set.",
          "DESIGN.md §6 C16"),
  "C06": ("Lean 4 proofs on the parameter-operator algorithms (abstract matcher, Int offsets) + in-process correspondence + bash oracle",
